@@ -227,13 +227,13 @@ def scn_model_call(T, scheme):
 MODEL_WRAPPERS = ("constant", "exponential", "skyride", "skygrid", "piecewise_exponential", "linear")
 
 
-def _wrapper_world(kind):
+def _wrapper_world(kind, dtype=torch.float64):
     """make(indices) for specs.histories.explore: a REAL coalescent model wrapper over a real TimeTreeModel (4 taxa, two cherries whose
     relative order changes between the height values, serial tips)"""
     import torchtree.evolution.coalescent as co
     from torchtree.core.parameter import Parameter
     from specs import treemodels
-    t64 = lambda v: torch.tensor(v, dtype=torch.float64)
+    t64 = lambda v: torch.tensor(v, dtype=dtype)
     names = ["A", "B", "C", "D"]
     tree = ((0, 1), (2, 3))
     tips = [0.0, 0.5, 0.0, 1.0]
@@ -304,6 +304,38 @@ def ob_wrapper_history(kind, depth):
               clause="the model wrapper returns the Kingman density of the CURRENT parameter values and node heights after every history", funcs=FUNCS)
 
 
+def ob_wrapper_dtype(kind):
+    """the same model evaluated with every input in float32 and in float64 (and after model.to(float64) where supported): the float32 value
+    is the float64 value to single precision (1e-4) — no integer truncation, no silent mixing — or the float32 evaluation raises"""
+    def body():
+        v64 = _wrapper_world(kind, torch.float64)(None)[0]()
+        notes = []
+        n = 1
+        for idx in (None, (1, 1, 1, 1), (2, 2, 2, 2)):
+            mk64 = _wrapper_world(kind, torch.float64)
+            mk32 = _wrapper_world(kind, torch.float32)
+            v64 = mk64(idx)[0]() if idx is None else mk64(tuple(idx[:len(mk64(None)[1])]))[0]()
+            try:
+                v32 = mk32(idx)[0]() if idx is None else mk32(tuple(idx[:len(mk32(None)[1])]))[0]()
+            except Exception as e:
+                notes.append("float32 inputs raise %s" % type(e).__name__)
+                continue
+            n += 1
+            if not v32.dtype.is_floating_point or not torch.allclose(v32.to(torch.float64), v64, rtol=1e-4, atol=1e-4):
+                raise Refuted("%s coalescent model: float32 inputs give %s (%s), float64 inputs %s" % (kind, v32.tolist(), v32.dtype, v64.tolist()),
+                              witness={"kind": kind, "values_index": idx}, replay={"kind": "custom", "contract": "C08", "func": "replay_wrapper_dtype", "args": {"kind": kind}}, confirmed=True)
+        return {"backend": "heap", "cases": n, "raised": "; ".join(sorted(set(notes))), "statement": "%s: float32 evaluation equals the float64 one to 1e-4 (%d points)" % (kind, n)}
+    return Ob("C08.model.dtype[%s]" % kind, "B", body, clause="the density does not depend on the floating-point type the inputs are written in (to single precision)", funcs=FUNCS)
+
+
+def replay_wrapper_dtype(args):
+    try:
+        ob_wrapper_dtype(args["kind"]).fn()
+    except Refuted as e:
+        return False, e.detail
+    return True, "held"
+
+
 def replay_wrapper_history(args):
     try:
         ob_wrapper_history(args["kind"], args["depth"]).fn()
@@ -316,6 +348,7 @@ def obligations(tier, seed):
     obs = []
     for kind in MODEL_WRAPPERS:
         obs.append(ob_wrapper_history(kind, 3 if tier == "quick" else 4))
+        obs.append(ob_wrapper_dtype(kind))
 
     def add(name, args, clause, factory="scn_coalescent", **kw):
         kw.setdefault("max_paths", 20000)
